@@ -26,7 +26,7 @@ pub struct ResourceParameter {
     size: u16,
 
     #[br(seek_before = SeekFrom::Start(strings_offset as u64 + local_string_offset as u64))]
-    #[br(count = string_length, map = | x: Vec<u8> | String::from_utf8(x).unwrap().trim_matches(char::from(0)).to_string())]
+    #[br(count = string_length, try_map = | x: Vec<u8> | String::from_utf8(x).map(|s| s.trim_matches(char::from(0)).to_string()))]
     #[br(restore_position)]
     pub name: String,
 }
@@ -144,7 +144,7 @@ pub struct ShaderPackage {
     #[br(count = 4)]
     #[bw(pad_size_to = 4)]
     #[bw(map = |x : &String | x.as_bytes())]
-    #[br(map = | x: Vec<u8> | String::from_utf8(x).unwrap().trim_matches(char::from(0)).to_string())]
+    #[br(try_map = | x: Vec<u8> | String::from_utf8(x).map(|s| s.trim_matches(char::from(0)).to_string()))]
     format: String,
 
     file_length: u32,
